@@ -27,8 +27,20 @@ EXTENDS PairPot, Cell
 (*   pos (sequence of integer vectors), typ (sequence of species 1..K),    *)
 (*   mroot (per species: rational square root of the mass),                *)
 (*   model, shift, eps, sigma, rc (K x K rationals, symmetric), n, A, alpha*)
+(*                                                                         *)
+(* The species table belongs to the MODEL: mroot and the parameter         *)
+(* matrices have K = Len(c.mroot) entries / K x K entries, indexed by the  *)
+(* species LABEL 1..K.  A configuration need not contain every species of  *)
+(* the table (Present(c) is any non-empty subset of 1..K).  The mass map   *)
+(* is a function species -> mass; an enumeration order of its domain (the  *)
+(* insertion order of a Python dict) is part of a rendering, not of the    *)
+(* map: every order denotes the same configuration.                        *)
 (***************************************************************************)
 NPart(c) == Len(c.pos)
+NSpecies(c) == Len(c.mroot)
+Present(c)  == {c.typ[i] : i \in 1..NPart(c)}
+SpeciesOK(c) == Present(c) # {} /\ Present(c) \subseteq 1..NSpecies(c)
+IsEnumeration(ord, K) == Len(ord) = K /\ {ord[k] : k \in 1..K} = 1..K
 \* all unordered pairs i < j in lexicographic order
 PairSeq(N) ==
   LET RECURSIVE From(_, _)
